@@ -201,13 +201,15 @@ impl Gatekeeper {
         let mut registered_users = self.registered_users.lock().unwrap();
         // The user may have been removed (outdated subscription) since it was authenticated.
         let user_info = registered_users.get_mut(&user_id).ok_or(NotEnoughSlots)?;
-        let used_blob_size = self
+        // Nothing is being used if there is no previous version of the appointment
+        let used_slots = self
             .dbm
             .lock()
             .unwrap()
             .get_appointment_length(uuid)
-            .unwrap_or(0);
-        let used_slots = compute_appointment_slots(used_blob_size, ENCRYPTED_BLOB_MAX_SIZE);
+            .map_or(0, |used_blob_size| {
+                compute_appointment_slots(used_blob_size, ENCRYPTED_BLOB_MAX_SIZE)
+            });
 
         let required_slots =
             compute_appointment_slots(appointment.encrypted_blob().len(), ENCRYPTED_BLOB_MAX_SIZE);
